@@ -917,3 +917,81 @@ def constant_names_rule(chk, cid, prog, cfgname, units=None):
                             '`%s` copies `%s` as a constant, but the routine also writes that variable (first at line %d, e.g. as the output operand of a complex '
                             'multiply): after that it no longer holds its initial value' % (pretty(whole[0])[:40], v.a['name'], wl), cfgname=cfgname)
     return n
+
+
+# dense matrix operands of the level-3 / level-2 BLAS calls: callee suffix -> [(index of the matrix argument, index of its leading dimension)]
+DENSE_OPERANDS = {'trsm_': [(7, 8), (9, 10)], 'gemm_': [(6, 7), (8, 9), (11, 12)], 'trsv_': [(4, 5)], 'gemv_': [(4, 5)]}
+
+
+def leading_dimension_agreement(chk, cid, prog, fnames, cfgname, floor=4):
+    """A dense column-major block lives in one array with one leading dimension.  Within a routine, every way a column of that array is
+    addressed - `&X[j*LD]`, `X[i + j*LD]`, and the (matrix, ld) argument pairs of ?gemm_/?trsm_/?gemv_/?trsv_ - must use the same LD.  The
+    scratch block `work` of ?gstrs is n x nrhs (filled by ?gemm_ with ldc = n): reading its columns with the leading dimension of B finds the
+    products of the first right-hand side only when ldb == n."""
+    chk.clause(cid, 'each dense array is addressed with a single leading dimension (column addresses and BLAS operand pairs agree)')
+    n = 0
+    for fname in fnames:
+        f = prog.func(fname)
+        if f is None:
+            from ..run import AnalysisBroken
+            raise AnalysisBroken('%s not found' % fname)
+        chk.saw(unit=f.unit, func=f.unit + ':' + f.name)
+        loopvars = set()
+        for x in f.body.walk():
+            if x.k == 'For' and x.c[0] is not None:
+                i0 = strip(x.c[0])
+                if i0.k == 'Assign' and strip(i0.c[0]).k == 'Ref':
+                    loopvars.add(strip(i0.c[0]).a.get('id'))
+        uses = {}       # base array id -> {ld text: node}
+        names = {}
+
+        def note(base, ld, node):
+            if base is None or ld is None:
+                return
+            uses.setdefault(base.a.get('id'), {}).setdefault(canon(ld, ids=False).replace(' ', ''), node)
+            names[base.a.get('id')] = base.a.get('name')
+
+        def unc(e):
+            e = strip(e)
+            while e.k == 'Cast':
+                e = strip(e.c[0])
+            return e
+        for x in f.body.walk():
+            if x.k == 'Index':
+                base = root_ref(x)
+                if base is None or strip(x.c[0]).k != 'Ref':
+                    continue
+                for y in x.c[1].walk():
+                    if y.k == 'Binary' and y.a['op'] == '*':
+                        a, b = unc(y.c[0]), unc(y.c[1])
+                        if a.k == 'Ref' and b.k == 'Ref':
+                            ia, ib = a.a.get('id') in loopvars, b.a.get('id') in loopvars
+                            if ia != ib:
+                                note(base, b if ia else a, x)
+            elif x.k == 'Call':
+                nm = callee_name(x) or ''
+                for suf, pairs in DENSE_OPERANDS.items():
+                    if nm.endswith(suf) and len(nm) == len(suf) + 1:
+                        args = x.c[1:]
+                        for (mi, li) in pairs:
+                            if mi < len(args) and li < len(args):
+                                m_, l_ = strip(args[mi]), strip(args[li])
+                                if l_.k == 'Unary' and l_.a['op'] == '&':
+                                    note(root_ref(m_), l_.c[0], x)
+        for bid, lds in sorted(uses.items(), key=lambda kv: names[kv[0]]):
+            if names[bid] in LUSUP_NAMES:
+                continue            # the supernode block: its stride discipline is the subject of lusup_stride_rule
+            n += 1
+            inst = '%s:%s:one-leading-dimension' % (fname, names[bid])
+            if len(lds) == 1:
+                chk.ok(cid, inst, sample='%s is always addressed with leading dimension %s' % (names[bid], next(iter(lds))), nontrivial=True)
+            else:
+                (l1, n1), (l2, n2) = sorted(lds.items(), key=lambda kv: kv[1].line)[:2]
+                chk.violate(cid, inst, loc(f, n2), fname,
+                            '`%s` is addressed with leading dimension %s (line %d: `%s`) and with %s (line %d: `%s`): one of the two reads or writes the '
+                            'wrong columns whenever the two values differ' % (names[bid], l1, n1.line, pretty(n1)[:50], l2, n2.line, pretty(n2)[:50]),
+                            cfgname=cfgname)
+    if n < floor:
+        from ..run import AnalysisBroken
+        raise AnalysisBroken('%s: %d dense arrays with a leading dimension found, floor %d' % (cid, n, floor))
+    return n
